@@ -16,6 +16,7 @@ pub fn info() -> PropInfo {
         rule: "proptest stateful (vec(op,1..=8) + interpreter). Issuer histories: independent (claims, strategy, holder key, decoys, format) per call incl. failing calls (non-object claims, path without '$.', reserved name _sd); every Ok output checked with the C05 oracle of that call's arguments (+ decoys present iff asked). Holder histories: independent (selection, KB args) per call incl. failing calls (unknown claim, inconsistent KB args), both formats; every Ok output checked with the C06 oracle of that call's arguments (disclosure multiset, KB-JWT iff asked with this call's nonce/aud/sd_hash, JWT bytes). A call must fail iff a fresh instance would. Non-trivial: history with >= 2 successful calls. Distinct: hash of the case JSON. sub_evaluations = calls executed.",
         assumptions: &["'what a fresh instance would do' is known from the argument class (non-object / reserved name / '$.'-less path / unknown claim / inconsistent KB arguments => Err, otherwise Ok)"],
         needs_mock: false,
+        rounds: 4,
     }
 }
 
